@@ -215,6 +215,11 @@ fn check_message(v: &Mvm, reg: &mut Registry, inv: Option<&Inv>, ok: bool, origi
                 {
                     o.violate("no_overwrite", "C20/exec4_over_existing", format!("step {step}: Exec4 created over existing actor {id} of type {:?}", type_of(old)));
                 }
+                // the stable (robust) address returned for the new actor maps to its id from now on
+                o.count("exec4_robust_addresses_checked");
+                if map.get(&r.robust_address) != Some(&id) {
+                    o.violate("address_stable", "C20/robust_address_not_mapped", format!("step {step}: Exec4 returned robust address {} which does not map to {id}{}", r.robust_address, if reg.codes.contains_key(&id) { " (deployment over a placeholder)" } else { "" }));
+                }
             }
             if i.to == EAM_ACTOR_ADDR && (2..=4).contains(&i.method) {
                 let r: fil_actor_eam::Return = i.ret.as_ref().unwrap().deserialize().unwrap();
@@ -515,7 +520,7 @@ pub fn history(index: u64, mut rng: Rng, tier: Tier) -> Outcome {
 pub fn run(cfg: &Cfg) -> i32 {
     let mut agg = Agg::new(cfg);
     let tier = cfg.tier;
-    let n = tier.pick(600, 20_000);
+    let n = tier.pick(4000, 80_000);
     agg.run_parallel("ids", n, Duration::from_secs(tier.pick(150, 1500)), |i, rng| history(i, rng, tier));
     agg.finish(
         "exploration",
